@@ -1084,12 +1084,17 @@ func run(r *core.Run) {
 		ex.known[v.key] = v
 		ex.all = append(ex.all, v)
 	}
+	for i, v := range leaves {
+		if i%97 == 0 {
+			r.Sample(map[string]interface{}{"leaf": v.lf.name, "model_value": v.m.Show(), "class": v.class()})
+		}
+	}
 	r.Set("pool_leaves", len(leaves))
 	r.Set("operations", len(u.ops))
 
 	// 2. nullary producers, literal forms, Go numeric kinds
 	consts := runConsts(ex)
-	runLiterals(ex)
+	complete = runLiterals(ex, false) && complete
 	runGoKinds(ex)
 
 	// 3. level 1. unary: every operation on every leaf. binary: scalars (all numbers, booleans, null, undefined) x
@@ -1171,6 +1176,7 @@ func run(r *core.Run) {
 		complete = complete && ok2
 		if r.Thorough() && ok2 {
 			ex.observe(new2, "depth2")
+			complete = runLiterals(ex, true) && complete
 			// 6. level 3 (pruned): class representatives of depth-2 values
 			rep2 := representatives(new2, 3)
 			nums2 := filter(new2, func(v *value) bool { return v.m.K == nm.Number })
@@ -1299,8 +1305,6 @@ func replayCase(r *core.Run, c Case) [][2]string {
 		return checkLiteral(w, c.Text, c.Name)
 	case "gokind":
 		return checkGoKind(w, c.Name)
-	case "regression":
-		return checkRegression(w, c.Name)
 	}
 	return [][2]string{{"replay|bad", "unknown case kind " + c.Kind}}
 }
